@@ -1,11 +1,14 @@
 (* C02 lifted to the public application calls of Model/ApiDefs.v: the run-level statements of Spec/RxSpec.v over the extended
    histories [xrun] (operations of the node interleaved with SendIsoAddressClaim, SendProductInformation, SendConfigurationInformation,
    SendTxPGNList, SendRxPGNList, SendHeartbeat, SetDeviceInformationInstances, SetDeviceInformation, Restart, SetMode, Set/Extend
-   SingleFrame/FastPacket Messages).  The notions are those of Spec/RxSpec.v (justified, fp_dlv, gf_ok, rx_clean, rx_idle, fast_first,
+   SingleFrame/FastPacket Messages, ExtendTransmitMessages, ExtendReceiveMessages, SetHandleOnlyKnownMessages, SetProductInformation).  The notions are those of Spec/RxSpec.v (justified, fp_dlv, gf_ok, rx_clean, rx_idle, fast_first,
    interleaved, seq_ok, run_complete, run_msg, key_of); only the history is extended: an API call contributes no arrived frame.
 
    What the calls do to reception:
-   * none of them touches the reassembly table, hands anything to the application, or changes the known-message switch or the clock;
+   * none of them touches the reassembly table, hands anything to the application or changes the clock; only SetHandleOnlyKnownMessages
+     changes the known-message switch (below);
+   * ExtendTransmitMessages / ExtendReceiveMessages / SetProductInformation replace d_tx / x_rx / c_prodinfo, which reception does not read
+     (the per-device lists are only reported by the PGN-list group function): they are INCLUDED in every statement below;
    * a SENDING call on a node that is not open yet goes through Open() (ApiDefs.open_first = NodeRxDefs.open_step), which in the state
      "CAN opened, waiting 200 ms" empties the driver's receive queue ("read rubbish out from CAN controller") - exactly what ParseMessages
      and SendMsg (RPoll, OSend) do on such a node.  Frames thrown away there justify nothing, so safety is unaffected; completeness is
@@ -20,7 +23,15 @@
      lifted statements by [api_keeps_lists] - exactly this call, nothing else.  (Deliveries made before the first ASetPgnList of a
      history are covered: apply the statement to that prefix.  A statement that classifies every delivery by the configuration in
      force when its first frame was stored would be the version for changing lists; it is not attempted here.)  The bound on the
-     delivered length, [api_delivered_at_most_223_stmt], is a corollary of the safety statement and carries the same exclusion. *)
+     delivered length, [api_delivered_at_most_223_stmt], is a corollary of the safety statement and carries the same exclusion;
+   * SetHandleOnlyKnownMessages (ASetOnlyKnown) changes c_only_known, the switch of the known-message filter every frame passes before it
+     is stored.  SAFETY does not depend on it (a frame the filter drops justifies nothing; the invariant of the safety proof does not
+     mention the switch), so the call is INCLUDED in [api_rx_no_corruption_stmt] and [api_delivered_at_most_223_stmt].  COMPLETENESS
+     does: [fast_first r0 f0] says that the run's PGN passes the filter of the START state, and a proprietary fast-packet PGN the
+     application has not listed passes it only while the switch is off - switch it on in the middle of the run and the remaining frames
+     are dropped ([api_rx_complete_run_lists_refuted] gives the history).  The completeness statement therefore excludes, besides
+     ASetPgnList, exactly this call ([api_keeps_switch], [keeps_filter]); [api_table_kept_stmt] states for it what is true: everything
+     but the switch is kept. *)
 From Coq Require Import ZArith List Bool.
 From N2kV Require Import Base.ListAux Model.CanId Model.Sched Model.PgnClass Model.NodeDefs Model.NodeRxDefs Model.GroupFnDefs Model.ApiDefs
   Gen.GenTables Gen.GenConsts Spec.SendSpec Spec.RxSpec.
@@ -35,6 +46,13 @@ Definition xframes_of (ops:list xop) : list rxframe :=
 Definition api_keeps_lists (a:api) : bool := match a with ASetPgnList _ _ => false | _ => true end.
 Definition xop_keeps_lists (o:xop) : bool := match o with XBase _ => true | XApi a => api_keeps_lists a end.
 Definition keeps_lists (ops:list xop) : Prop := forallb xop_keeps_lists ops = true.
+
+(* the calls that leave the known-message switch alone: all but SetHandleOnlyKnownMessages *)
+Definition api_keeps_switch (a:api) : bool := match a with ASetOnlyKnown _ => false | _ => true end.
+(* the calls that leave the whole filter configuration (lists and switch) alone *)
+Definition api_keeps_filter (a:api) : bool := api_keeps_lists a && api_keeps_switch a.
+Definition xop_keeps_filter (o:xop) : bool := match o with XBase _ => true | XApi a => api_keeps_filter a end.
+Definition keeps_filter (ops:list xop) : Prop := forallb xop_keeps_filter ops = true.
 
 (* ================= safety for every extended history ================= *)
 Definition api_rx_no_corruption_stmt : Prop :=
@@ -55,13 +73,13 @@ Definition api_delivered_at_most_223_stmt : Prop :=
     Forall (fun m => m_len m <= 223) (fp_dlv (concat (snd (xrun gf r0 ops)))).
 
 (* ================= one call ================= *)
-(* Every call except ASetPgnList leaves the reassembly table, the PGN configuration and the known-message switch alone and hands nothing
-   to the application; the driver's receive queue is kept or - only through Open() on a node that is not open - emptied; on an open node
-   it is kept. *)
+(* Every call except ASetPgnList leaves the reassembly table and the PGN configuration alone and hands nothing to the application; every
+   such call except ASetOnlyKnown leaves the known-message switch alone; the driver's receive queue is kept or - only through Open() on a
+   node that is not open - emptied; on an open node it is kept. *)
 Definition api_table_kept_stmt : Prop :=
   forall r a, api_keeps_lists a = true ->
     r_slots (fst (api_step r a)) = r_slots r /\ n_pgn (rn (fst (api_step r a))) = n_pgn (rn r) /\
-    c_only_known (r_cfg (fst (api_step r a))) = c_only_known (r_cfg r) /\ dlv_of (snd (api_step r a)) = [] /\
+    (api_keeps_switch a = true -> c_only_known (r_cfg (fst (api_step r a))) = c_only_known (r_cfg r)) /\ dlv_of (snd (api_step r a)) = [] /\
     (r_q (fst (api_step r a)) = r_q r \/ r_q (fst (api_step r a)) = []) /\
     (n_open (rn r) = 3 -> r_q (fst (api_step r a)) = r_q r).
 
@@ -69,6 +87,18 @@ Definition api_table_kept_stmt : Prop :=
 Definition xstays_open (gf:rnode -> slot -> rnode * list event) (r0:rnode) (ops:list xop) : Prop :=
   forall k, n_open (rn (fst (xrun gf r0 (firstn k ops)))) = 3.
 Definition api_rx_complete_run_stmt : Prop :=
+  forall gf r0 ops pre f0 mid rest cs (keys:list (Z * Z * Z)),
+    gf_ok gf -> rx_idle r0 -> xstays_open gf r0 ops -> keeps_filter ops ->
+    Z.of_nat (length keys) <= nslots r0 -> (forall f, In f (xframes_of ops) -> In (key_of f) keys) ->
+    xframes_of ops = pre ++ f0 :: mid ++ rest ->
+    fast_first r0 f0 -> interleaved f0 cs mid -> seq_ok (fbyte f0 0) cs f0 -> run_complete f0 cs = true ->
+    (forall cs', (length cs' < length cs)%nat -> cs' = firstn (length cs') cs -> run_complete f0 cs' = false) ->
+    (length (r_q (fst (xrun gf r0 ops))) <= length rest)%nat ->
+    In (run_msg f0 cs) (fp_dlv (concat (snd (xrun gf r0 ops)))).
+
+(* the same statement with only ASetPgnList excluded is false: SetHandleOnlyKnownMessages(true) in the middle of a run of a proprietary
+   fast-packet PGN the application has not listed makes the node drop the rest of the run *)
+Definition api_rx_complete_run_lists_stmt : Prop :=
   forall gf r0 ops pre f0 mid rest cs (keys:list (Z * Z * Z)),
     gf_ok gf -> rx_idle r0 -> xstays_open gf r0 ops -> keeps_lists ops ->
     Z.of_nat (length keys) <= nslots r0 -> (forall f, In f (xframes_of ops) -> In (key_of f) keys) ->
